@@ -33,8 +33,8 @@ func init() {
 	realComponents["C06"] = []string{"net/oneway.OneWayTcpClient (public API, singleton via GetOneWayTcpClient/Destroy)", "bufio.Writer", "pack encoders (TextPack, LogSinkPack, TagCountPack)", "io.DataOutputX", "util/queue.RequestQueue", "util/hash.Hash64Str"}
 	stubComponents["C06"] = []string{"net.DialTimeout/net.Conn (simnet)", "collector peer (passive sink + independent frame parser)", "sync.Mutex/Cond", "time (virtual clock)", "goroutine scheduler"}
 	probesFor["C06"] = []string{"reconnect_happened", "fault_mid_frame", "blocked_on_lock_held_inside_op", "queue_refused_put", "frame_larger_than_buffer", "peer_reset_mid_stream", "write_after_close_lost", "dial_refused", "recovered_after_heal"}
-	register(&Scenario{Prop: "C06", Name: "healthy", MaxSteps: 3000000, Body: c06Body(false), After: c06After})
-	register(&Scenario{Prop: "C06", Name: "faults", MaxSteps: 3000000, Body: c06Body(true), After: c06After})
+	register(&Scenario{Prop: "C06", Name: "healthy", MaxSteps: 3000000, Body: c06Body(false), After: c06After, Quanta: []int64{1000, 5000, 20000}})
+	register(&Scenario{Prop: "C06", Name: "faults", MaxSteps: 3000000, Body: c06Body(true), After: c06After, Quanta: []int64{1000, 5000, 20000}})
 }
 
 type c06Send struct {
@@ -69,6 +69,15 @@ type c06Data struct {
 	net       *simnet.Network
 	arrivals  []c06Arrival
 	healed    bool
+	dialWait  []*simrt.Task
+}
+
+//go:norace
+func (d *c06Data) onDial(addr string) {
+	for _, t := range d.dialWait {
+		simrt.MakeRunnable(t)
+	}
+	d.dialWait = nil
 }
 
 //go:norace
@@ -210,6 +219,7 @@ func c06Body(faulty bool) func(rc *RunCtx) {
 		}
 		n.Listen(addrA, accept)
 		n.Listen(addrB, accept)
+		n.OnDial = d.onDial
 		if faulty && simrt.ChooseF(8) == 1 {
 			n.SetMode(addrA, simnet.Refusing)
 			simrt.Fault("first_server_down")
@@ -265,7 +275,7 @@ func c06Body(faulty bool) func(rc *RunCtx) {
 			total += k
 		}
 		simrt.SetStepsGuess(int64(total) * 120)
-		pace := simrt.Choose(4) // 0 burst, 1 occasional pauses, 2 slow senders, 3 around whole seconds
+		pace := simrt.Choose(5) // 0 burst, 1 occasional pauses, 2 slow senders, 3 around whole seconds, 4 right when a dial starts
 		sentCount := 0
 		doSend := func(task int, it item, phase string) *c06Send {
 			p := c06MakePack(it.id, it.kind, it.size, it.pcode)
@@ -347,6 +357,10 @@ func c06Body(faulty bool) func(rc *RunCtx) {
 						el := simrt.Elapsed()
 						next := (el/int64(time.Second) + 1) * int64(time.Second)
 						simrt.Sleep(time.Duration(next-el) + time.Duration(simrt.Choose(400)-100)*time.Microsecond)
+					case 4:
+						// park until some task starts a connection attempt (or a few seconds pass), so
+						// that the next send overlaps a dial in flight
+						simrt.SleepOrWake(time.Duration(2000+simrt.Choose(7000))*time.Millisecond, &d.dialWait)
 					case 2:
 						// slow senders: sends spread over many seconds, overlapping the background
 						// goroutine's 5 s wake-ups
@@ -379,7 +393,9 @@ func c06Body(faulty bool) func(rc *RunCtx) {
 				doSend(0, item{id: nextID, kind: simrt.Choose(3), size: 20, pcode: 4242, flush: true}, "recovery")
 			}
 		} else {
-			simrt.Settle(int64(10 * time.Second)) // let a failed dial's 5 s back-off expire
+			// a dial that was already in flight to a black-holed server only returns after the
+			// client's 60 s connect timeout, then comes the 5 s back-off: wait those out
+			simrt.Settle(int64(70 * time.Second))
 			for i := 0; i < c06RecoverySends; i++ {
 				nextID++
 				doSend(0, item{id: nextID, kind: 0, size: 20, pcode: 4242, flush: true}, "recovery")
